@@ -475,6 +475,12 @@ def timeline_vs_reference(tier, seed):
         rng = random.Random(20260925)
         pairs = [(a, b) for a in vals for b in vals]
         pairs = rng.sample(pairs, min(len(pairs), 1500 if tier == 'quick' else 20000))
+        # every pair of values less than 29 hours apart whose local years differ: the timezones can reverse the order of the local fields (also across 1 BCE / 1 CE
+        # and 9999 / 10000), or make two different local dates the same instant
+        def local_year(text):
+            return int(text[:text.index('-', 1)])
+        near = [(x, y) for x in vals for y in vals if abs(x[2] - y[2]) <= 29 * 3600 and local_year(x[0]) != local_year(y[0])]
+        pairs += near if tier != 'quick' else rng.sample(near, min(len(near), 1200))
         for (ta, a, ia), (tb, b, ib) in pairs:
             n += 1
             w = dict(a=ta, b=tb, xsd=version)
@@ -495,7 +501,7 @@ def timeline_vs_reference(tier, seed):
                 bad(f'dateTime - dateTime is not the elapsed time ({_range_family(ta, tb)})', **w, got=str(dlt), want=f'{float(ia - ib)} s')
         durs = ['P1D', 'P366D', '-P366D', 'PT1H', '-PT30M', 'P365D', 'P146097D', '-P146097D', 'PT0.5S', '-P1D', 'P3652425D']
         for (ta, a, ia) in vals:
-            for dt_ in durs[: (5 if tier == 'quick' else 11)]:
+            for dt_ in (durs[:5] if tier == 'quick' else durs) + ['P150000DT0.000001S', '-P150000DT0.000001S', 'P3652425DT0.5S'][: (2 if tier == 'quick' else 3)]:
                 n += 1
                 st, d = ev(mkdur, t=dt_)
                 st, r = ev(add, a=a, d=d)
@@ -728,6 +734,38 @@ def components_and_constructors(tier, seed):
         ev(expr, timezone='+03:00', d=v)
         if (str(v), v.tzinfo) != before:
             bad('an operation under an implicit timezone changes the timezone of an operand bound to a variable', expr=expr, before=before[0], after=str(v))
+    # xs:time +/- dayTimeDuration is the time of day modulo 24 hours, whatever the length of the duration is (op:add-dayTimeDuration-to-time)
+    for (h, mi, sv), tz in itertools.product(((0, 0, Fraction(0)), (12, 0, Fraction(0)), (23, 59, Fraction(119, 2)), (0, 30, Fraction(1, 1000000))), (None, 0, -300, 840)):
+        for days, secs in ((0, 3600), (0, -3600), (3, 4500), (23, 36600), (3000000, 0), (3000000, 3600), (-800000, -46800), (730120, 1), (-730120, -1), (0, Fraction(1, 1000000))):
+            for sign in ('+', '-'):
+                n += 1
+                seen.add(('time arithmetic', abs(days) > 700000, sign, tz is None))
+                total = Fraction(days * 86400) + secs
+                dtxt = ('-' if total < 0 else '') + f'P{abs(days)}DT{float(abs(Fraction(secs))):.6f}S'
+                src = f'{h:02d}:{mi:02d}:{sec_text(sv)}{tz_text(tz)}'
+                tod = (h * 3600 + mi * 60 + sv + (total if sign == '+' else -total)) % 86400
+                hh, rem = divmod(tod, 3600)
+                mm, ss = divmod(rem, 60)
+                want = f'{int(hh):02d}:{int(mm):02d}:{sec_text(ss)}{tz_text(tz)}'
+                got = ev(f"string(xs:time('{src}') {sign} xs:dayTimeDuration('{dtxt}'))")
+                if got != ('ok', want):
+                    bad('xs:time +/- dayTimeDuration is not the time of day modulo 24 hours' + (' (duration longer than 700000 days)' if abs(days) > 700000 else ''),
+                        expr=f"xs:time('{src}') {sign} xs:dayTimeDuration('{dtxt}')", got=repr(got[1])[:60], want=want)
+    # the quotient of two durations is an xs:decimal (exact), of both duration types
+    for a_, b_, want in (('P1Y', 'P7M', Fraction(12, 7)), ('P3Y4M', '-P1Y4M', Fraction(-5, 2)), ('P1M', 'P1Y', Fraction(1, 12)), ('P2Y', 'P1Y', Fraction(2))):
+        for tname, lit in (('yearMonthDuration', lambda t: f"xs:yearMonthDuration('{t}')"),):
+            n += 1
+            got = ev(f"for $q in {lit(a_)} div {lit(b_)} return ($q instance of xs:decimal, $q * 84)")
+            ok = got[0] == 'ok' and isinstance(got[1], list) and len(got[1]) == 2 and got[1][0] is True and isinstance(got[1][1], _d.Decimal) and \
+                abs(Fraction(got[1][1]) - want * 84) < Fraction(1, 10 ** 20)
+            if not ok:
+                bad(f'{tname} div {tname} is not the exact xs:decimal quotient', a=a_, b=b_, got=repr(got)[:80], want=f'{want} as xs:decimal')
+    for a_, b_, want in (('P1D', 'PT7H', Fraction(24, 7)), ('PT1S', 'PT3S', Fraction(1, 3)), ('-P2D', 'P1D', Fraction(-2))):
+        n += 1
+        got = ev(f"for $q in xs:dayTimeDuration('{a_}') div xs:dayTimeDuration('{b_}') return ($q instance of xs:decimal, $q * 21)")
+        ok = got[0] == 'ok' and isinstance(got[1], list) and len(got[1]) == 2 and got[1][0] is True and abs(Fraction(got[1][1]) - want * 21) < Fraction(1, 10 ** 20)
+        if not ok:
+            bad('dayTimeDuration div dayTimeDuration is not the exact xs:decimal quotient', a=a_, b=b_, got=repr(got)[:80], want=f'{want} as xs:decimal')
     fails = [{'key': k, 'items': it[:4], 'count': len(it), 'what': f'{k}: e.g. {it[0]}'} for k, it in fam.items()]
     return {'evaluations': n, 'distinct': len(seen), 'failures': fails, 'n_failures': len(fails),
             'scope': f'{len(combos)} dateTime/date/time values per XSD version ({len(years)} years incl. BCE, 0, >9999; 5 days; 6 times with fractional seconds; 7 timezones incl. below one hour) x '
@@ -741,5 +779,143 @@ def _replay_components(f):
     return all(x['key'] != f['key'] for x in _CACHE['c']['failures'])
 
 
+def _adjust_body(tier, seed):
+    """fn:adjust-dateTime/date/time-to-timezone against the F&O definitions computed on integer day counts: a value with a timezone keeps its instant and gets the
+    target timezone (a date: the date of the instant of its midnight; a time: the time of day modulo 24 h); a value without timezone keeps its fields and gets the
+    timezone; an empty target removes the timezone and keeps the fields; the one-argument form is the two-argument form with fn:implicit-timezone(), with a
+    context timezone and (process timezone switched with TZ/tzset in this forked child) without one."""
+    import os, re, time as _time
+    fam, n, seen = {}, 0, set()
+
+    def bad(k, **w):
+        fam.setdefault(k, []).append(w)
+    P = XPath31Parser
+
+    def ev(expr, version='1.0', timezone=None, **v):
+        try:
+            return 'ok', P(xsd_version=version).parse(expr).evaluate(XPathContext(root=None, item=1, variables=v, timezone=timezone))
+        except ElementPathError as e:
+            return 'err', e.code.split(':')[-1] if isinstance(e.code, str) else str(e.code)
+        except Exception as e:      # noqa
+            return 'crash', f'{type(e).__name__}: {e}'[:90]
+
+    def tz_text(tz):
+        return '' if tz is None else 'Z' if tz == 0 else ('+' if tz > 0 else '-') + f'{abs(tz) // 60:02d}:{abs(tz) % 60:02d}'
+
+    def tz_dur(tz):
+        return ('-' if tz < 0 else '') + f'PT{abs(tz) // 60}H{abs(tz) % 60}M'
+
+    def date_text(y, mo, d, version):
+        return f'{_lex(y, version)}-{mo:02d}-{d:02d}'
+    offsets = [-840, -719, -300, -30, 0, 1, 330, 600, 660, 840] if tier == 'quick' else list(range(-840, 841, 45)) + [-1, 1, -719]
+    dates = [(2000, 1, 1), (2000, 3, 1), (1999, 12, 31), (1, 1, 1), (0, 12, 31), (0, 1, 1), (-1, 3, 1), (10000, 1, 1), (9999, 12, 31), (2002, 3, 7)]
+    times = [(0, 0, 0), (10, 0, 0), (23, 59, 59), (12, 30, 15)]
+    for version in ('1.0', '1.1'):
+        for (y, mo, d) in dates:
+            for a in [None] + offsets:
+                for b in [None] + offsets:
+                    # ---- xs:date
+                    n += 1
+                    seen.add(('date', a is None, b is None, None if None in (a, b) else (b - a) // 1440))
+                    src = date_text(y, mo, d, version) + tz_text(a)
+                    expr = f"string(adjust-date-to-timezone(xs:date('{src}'), {'()' if b is None else 'xs:dayTimeDuration(' + repr(tz_dur(b)) + ')'}))"
+                    if a is None or b is None:
+                        want = date_text(y, mo, d, version) + tz_text(b)
+                    else:
+                        want = date_text(*_civil_from_days(_days_from_civil(y, mo, d) + (b - a) // 1440), version) + tz_text(b)
+                    got = ev(expr, version)
+                    if got != ('ok', want):
+                        kind = 'without timezone' if a is None else 'to the empty timezone' if b is None else \
+                            f'moving {"forward" if b > a else "backward" if b < a else "nowhere"} over {abs((b - a) // 1440)} date boundaries' + \
+                            (' across a year boundary' if _civil_from_days(_days_from_civil(y, mo, d) + (b - a) // 1440)[0] != y else '')
+                        bad(f'adjust-date-to-timezone ({kind}) is not the date of the same starting instant', expr=expr, xsd=version, got=repr(got[1])[:60], want=want)
+                    if (y, mo, d) not in ((2000, 3, 1), (1, 1, 1), (9999, 12, 31), (0, 1, 1)):
+                        continue
+                    # ---- xs:dateTime and xs:time
+                    for (h, mi, sec) in times:
+                        n += 1
+                        seen.add(('dateTime', a is None, b is None))
+                        src = _dt_text(y, mo, d, h, mi, sec, a, version)
+                        tgt = '()' if b is None else f"xs:dayTimeDuration('{tz_dur(b)}')"
+                        expr = f"string(adjust-dateTime-to-timezone(xs:dateTime('{src}'), {tgt}))"
+                        if a is None or b is None:
+                            want = _dt_text(y, mo, d, h, mi, sec, b, version)
+                        else:
+                            tot = _days_from_civil(y, mo, d) * 1440 + h * 60 + mi + (b - a)
+                            dd, rem = divmod(tot, 1440)
+                            want = _dt_text(*_civil_from_days(dd), rem // 60, rem % 60, sec, b, version)
+                        got = ev(expr, version)
+                        if got != ('ok', want):
+                            bad('adjust-dateTime-to-timezone does not keep the instant (or the fields of a value without timezone)', expr=expr, xsd=version,
+                                got=repr(got[1])[:60], want=want)
+                        if (y, mo, d) != (2000, 3, 1):
+                            continue
+                        n += 1
+                        src = f'{h:02d}:{mi:02d}:{sec:02d}' + tz_text(a)
+                        expr = f"string(adjust-time-to-timezone(xs:time('{src}'), {tgt}))"
+                        if a is None or b is None:
+                            want = f'{h:02d}:{mi:02d}:{sec:02d}' + tz_text(b)
+                        else:
+                            rem = (h * 60 + mi + (b - a)) % 1440
+                            want = f'{rem // 60:02d}:{rem % 60:02d}:{sec:02d}' + tz_text(b)
+                        got = ev(expr, version)
+                        if got != ('ok', want):
+                            bad('adjust-time-to-timezone does not keep the time of day of the instant', expr=expr, xsd=version, got=repr(got[1])[:60], want=want)
+    # ---- the one-argument form is the two-argument form with the implicit timezone
+    one_arg = [("adjust-dateTime-to-timezone(xs:dateTime('{v}'))", "adjust-dateTime-to-timezone(xs:dateTime('{v}'), implicit-timezone())",
+                ['2002-03-07T10:00:00-07:00', '2002-03-07T10:00:00', '2000-01-01T00:30:00+14:00', '0001-01-01T00:00:00+01:00']),
+               ("adjust-date-to-timezone(xs:date('{v}'))", "adjust-date-to-timezone(xs:date('{v}'), implicit-timezone())", ['2002-03-07-07:00', '2002-03-07', '2000-01-01+14:00']),
+               ("adjust-time-to-timezone(xs:time('{v}'))", "adjust-time-to-timezone(xs:time('{v}'), implicit-timezone())", ['10:00:00-07:00', '10:00:00', '23:30:00+14:00'])]
+    from elementpath.datatypes import Timezone
+    import datetime as _dtm
+    saved_tz = os.environ.get('TZ')
+    try:
+        for env_tz, local_minutes in ((None, None), ('EST5', -300), ('XXX-5:30', 330), ('UTC0', 0)):
+            if env_tz is not None:
+                os.environ['TZ'] = env_tz
+                _time.tzset()
+            for ctx_tz in ((None,) if env_tz is not None else (Timezone(_dtm.timedelta(hours=-5)), Timezone(_dtm.timedelta(minutes=330)), Timezone(_dtm.timedelta(0)))):
+                if env_tz is not None:
+                    n += 1
+                    got = ev('string(implicit-timezone())')
+                    want = str(ev(f"string(xs:dayTimeDuration('{tz_dur(local_minutes)}'))")[1])
+                    if got != ('ok', want):
+                        bad('fn:implicit-timezone() without a context timezone is not the offset of the local time', TZ=env_tz, got=repr(got[1])[:40], want=want)
+                for f1, f2, vs in one_arg:
+                    for v in vs:
+                        n += 1
+                        seen.add(('one-arg', f1[:14], env_tz is not None, ctx_tz is None))
+                        g1 = ev('string(' + f1.format(v=v) + ')', timezone=ctx_tz)
+                        g2 = ev('string(' + f2.format(v=v) + ')', timezone=ctx_tz)
+                        if g1 != g2 or g1[0] != 'ok':
+                            bad('the one-argument adjust-to-timezone functions do not use the implicit timezone ' +
+                                ('of the context' if ctx_tz is not None else '(no context timezone)'), expr=f1.format(v=v), TZ=env_tz, context_timezone=str(ctx_tz),
+                                got=repr(g1[1])[:50], with_implicit_timezone_argument=repr(g2[1])[:50])
+    finally:
+        if saved_tz is None:
+            os.environ.pop('TZ', None)
+        else:
+            os.environ['TZ'] = saved_tz
+        _time.tzset()
+    fails = [{'key': k, 'count': len(it), 'items': it[:3], 'what': f'{k}: e.g. {it[0]}'} for k, it in fam.items()]
+    return {'evaluations': n, 'distinct': len(seen), 'failures': fails, 'n_failures': len(fails),
+            'scope': f'{len(dates)} dates (BCE, year 0/1, 9999/10000, month ends) x ({len(offsets)} + none)^2 source/target timezones x XSD 1.0/1.1 for adjust-date-to-timezone; '
+                     f'4 dates x {len(times)} times for adjust-dateTime-to-timezone, 1 x {len(times)} for adjust-time-to-timezone; one-argument forms with 3 context timezones and '
+                     'with 3 process timezones (TZ/tzset in a forked child) against the two-argument form with implicit-timezone(); oracle: integer day counts',
+            'rule': 'distinct = (function, source has timezone, target is empty, date boundaries crossed)'}
+
+
+def adjust_to_timezone(tier, seed):
+    from .bounded import run_isolated
+    return run_isolated(_adjust_body, tier, seed, 600 if tier == 'quick' else 1800, 'the adjust-to-timezone grid')
+
+
+def _replay_adjust(f):
+    if 'a' not in _CACHE:
+        _CACHE['a'] = adjust_to_timezone('quick', 0)
+    return all(x['key'] != f['key'] for x in _CACHE['a']['failures'])
+
+
 BOUNDED = [Bounded('timeline_vs_integer_day_count_reference', timeline_vs_reference, _replay_timeline),
-           Bounded('components_constructors_and_implicit_timezone', components_and_constructors, _replay_components)]
+           Bounded('components_constructors_and_implicit_timezone', components_and_constructors, _replay_components),
+           Bounded('adjust_to_timezone_vs_integer_day_count_reference', adjust_to_timezone, _replay_adjust)]
